@@ -132,10 +132,43 @@ impl RStore {
     pub fn put_back(&mut self, stream: Stream)
         ensures final(self).held() == old(self).held() - 1,
     { unimplemented!() }
+
+    /// Store::find_mut: the stream with this id, if the store has one (owned model; I-recv-pool for the stored stream
+    /// relative to the connection's in-flight total is ASSUMED here, it is the postcondition of every Recv function above)
+    #[verifier::external_body]
+    pub fn find_mut(&mut self, id: &StreamId, conn_in_flight: Ghost<int>) -> (r: Option<Stream>)
+        ensures
+            match r {
+                Some(s) => s.id == *id && wf_stream_level(s.recv_flow, s.in_flight_recv_data as int)
+                    && s.in_flight_recv_data <= conn_in_flight@ && s.in_flight_recv_data + conn_in_flight@ <= 0x7fff_ffff
+                    && final(self).held() == old(self).held() + 1,
+                None => final(self).held() == old(self).held(),
+            },
+    { unimplemented!() }
 }
 
-pub struct Counts { pub num_remote_reset_streams: usize, pub max_remote_reset_streams: usize, pub tag: u8 }
+pub struct BudgetExhausted;
+
+pub struct Counts {
+    pub num_remote_reset_streams: usize,
+    pub max_remote_reset_streams: usize,
+    /// ghost: the arguments of every Counts::record_data_frame call so far (what the DATA-frame overhead budget was charged with)
+    pub charged: Ghost<Seq<usize>>,
+    pub tag: u8,
+}
 impl Counts {
+    /// Counts::record_data_frame (real body: Kani unit counts_data_frame_budget): logs what it is charged with.
+    #[verifier::external_body]
+    pub fn record_data_frame(&mut self, payload_len: usize) -> (r: Result<(), BudgetExhausted>)
+        ensures *final(self) == (Counts { charged: Ghost(old(self).charged@.push(payload_len)), tag: final(self).tag, ..*old(self) }),
+    { unimplemented!() }
+
+    /// Counts::transition_after where the caller is not an announcer of credit (no I-owed obligation)
+    #[verifier::external_body]
+    pub fn transition_after_any(&mut self, stream: Stream, is_reset_counted: bool, store: &mut RStore)
+        ensures final(store).held() == old(store).held() - 1, final(self).charged@ == old(self).charged@,
+    { unimplemented!() }
+
     //@extract src/proto/streams/counts.rs Counts::max_remote_reset_streams
     //@ret r
     //@spec     ensures r == self.max_remote_reset_streams,
@@ -210,6 +243,7 @@ impl RData {
         match self.pad { Some(p) => self.payload_len + p as usize + 1, None => self.payload_len }
     }
 
+    pub fn stream_id(&self) -> (r: StreamId) ensures r == self.stream_id { self.stream_id }
     pub fn payload(&self) -> (r: RPayload) ensures r.len == self.payload_len { RPayload { len: self.payload_len } }
     pub fn is_end_stream(&self) -> (r: bool) ensures r == self.eos { self.eos }
     pub fn into_payload(self) -> (r: RPayload) ensures r.len == self.payload_len { RPayload { len: self.payload_len } }
@@ -260,6 +294,11 @@ impl Recv {
     //@spec         // C06: the connection task is woken iff an update is now owed
     //@spec         update_due(final(self).flow) ==> *final(task) is None,
     //@spec         !update_due(final(self).flow) ==> *final(task) == *old(task),
+    //@end
+
+    //@extract src/proto/streams/recv.rs Recv::max_stream_id
+    //@ret r
+    //@spec     ensures r == self.max_stream_id,
     //@end
 
     //@extract src/proto/streams/recv.rs Recv::ignore_data
@@ -335,7 +374,8 @@ impl Recv {
     //@spec             && final(self).flow == old(self).flow && final(self).in_flight_data == old(self).in_flight_data,
     //@spec         // ---- C09/C03: the connection window is enforced first
     //@spec         (old(stream).state.local_error() || old(stream).state.recv_streaming()) && frame.fc_len() > old(self).flow.w() ==>
-    //@spec             r == Err::<(), Error>(Error::GoAway(Reason::FLOW_CONTROL_ERROR, Initiator::Library)) && final(stream).pending_recv@ == old(stream).pending_recv@,
+    //@spec             r == Err::<(), Error>(Error::GoAway(Reason::FLOW_CONTROL_ERROR, Initiator::Library)) && final(stream).pending_recv@ == old(stream).pending_recv@
+    //@spec             && final(self).flow == old(self).flow && final(self).in_flight_data == old(self).in_flight_data,
     //@spec         // ---- C09/C03: a frame for a stream we reset is tolerated, charged, and credited back at once
     //@spec         old(stream).state.local_error() && frame.fc_len() <= old(self).flow.w() ==> r is Ok && *final(stream) == *old(stream)
     //@spec             && final(self).flow.w() == old(self).flow.w() - frame.fc_len() && final(self).flow.a() == old(self).flow.a() && final(self).in_flight_data == old(self).in_flight_data,
@@ -561,6 +601,70 @@ impl Recv {
     //@spec         // every visited stream is handed back (on the error path the connection dies: not claimed there)
     //@spec         r is Ok ==> final(store).held() == old(store).held(),
     //@spec         final(self).flow == old(self).flow && final(self).in_flight_data == old(self).in_flight_data,
+    //@end
+}
+
+// ---------------------------------------------------------------- streams.rs: the dispatch layer above Recv
+
+#[derive(Clone, Copy, Debug)]
+pub enum PeerDyn { Client, Server }
+
+pub struct SendBuf { pub tag: u8 }
+
+pub struct Actions { pub recv: Recv, pub tag: u8 }
+
+impl Actions {
+    /// Actions::may_have_forgotten_stream: id rules, verified by the Kani unit inner_recv_data_unknown_stream
+    #[verifier::external_body]
+    pub fn may_have_forgotten_stream(&self, peer: PeerDyn, id: StreamId) -> (r: bool) { unimplemented!() }
+
+    /// Actions::reset_on_recv_stream_err: a stream error becomes RST_STREAM (Send::send_reset: unit v_send) or, over the
+    /// quota, a connection error; anything else passes through.  It does not touch the receive windows or the budget.
+    #[verifier::external_body]
+    pub fn reset_on_recv_stream_err(&mut self, buffer: &mut SendBuf, stream: &mut Stream, counts: &mut Counts, res: Result<(), Error>) -> (r: Result<(), Error>)
+        ensures
+            final(self).recv == old(self).recv,
+            final(counts).charged@ == old(counts).charged@,
+            !(res matches Err(Error::Reset(_, _, _))) ==> r == res,
+            res matches Err(Error::Reset(_, _, _)) ==> r is Ok || r == Err::<(), Error>(Error::GoAway(Reason::ENHANCE_YOUR_CALM, Initiator::Library)),
+    { unimplemented!() }
+}
+
+/// streams.rs `Inner` (named SInner here: state.inc already has the state enum `Inner`)
+pub struct SInner { pub counts: Counts, pub actions: Actions, pub store: RStore }
+
+impl SInner {
+    // Inner::recv_data — what the connection does with a DATA frame (C03, C09, C18).  The unknown-stream arms are also
+    // the Kani unit inner_recv_data_unknown_stream; here the whole function, the known-stream arm included:
+    //@extract src/proto/streams/streams.rs Inner::recv_data
+    //@none_args Waker
+    //@subst_re fn recv_data<B>\(\s*&mut self,\s*peer: peer::Dyn,\s*send_buffer: &SendBuffer<B>,\s*frame: frame::Data,\s*\) -> Result<\(\), Error>=>fn recv_data(&mut self, peer: PeerDyn, send_buffer: &mut SendBuf, frame: RData) -> Result<(), Error>
+    //@subst self.store.find_mut(&id)=>self.store.find_mut(&id, Ghost(self.actions.recv.in_flight_data as int))
+    //@subst id > self.actions.recv.max_stream_id()=>id.0 > self.actions.recv.max_stream_id().0
+    //@subst super::MAX_WINDOW_SIZE=>MAX_WINDOW_SIZE
+    //@subst_re let actions = &mut self\.actions;\s*let mut send_buffer = send_buffer\.inner\.lock\(\)\.unwrap\(\);\s*let send_buffer = &mut \*send_buffer;=>
+    //@subst_re self\.counts\.transition\(stream, \|counts, stream\| \{ ==>> { let mut stream = stream; let is_pending_reset = stream.is_pending_reset_expiration(); let res_final = {
+    //@subst actions.recv.recv_data(frame, stream)=>self.actions.recv.recv_data(frame, &mut stream)
+    //@subst_re res = counts\.record_data_frame\((\w+)\)\.map_err\(\|_\| \{.*?\}\);=>res = match self.counts.record_data_frame(\1) { Ok(()) => Ok(()), Err(_) => Err(Error::library_go_away_data(Reason::ENHANCE_YOUR_CALM, "too_many_data_frames")) };
+    //@subst_re if let Err\(Error::Reset\(\.\.\)\) = res \{\s*actions\s*\.recv\s*\.release_connection_capacity\(=>if let Err(Error::Reset(_, _, _)) = res { self.actions.recv.release_connection_capacity(
+    //@subst actions.reset_on_recv_stream_err(send_buffer, stream, counts, res)=>self.actions.reset_on_recv_stream_err(send_buffer, &mut stream, &mut self.counts, res)
+    //@subst_re \}\)(\s*\}\s*)$=>}; self.counts.transition_after_any(stream, is_pending_reset, &mut self.store); res_final }\1
+    //@ret r
+    //@spec     requires
+    //@spec         frame.payload_len <= 0xff_ffff,      // FramedRead: max_frame_size <= 2^24-1
+    //@spec         wf_conn(old(self).actions.recv.flow, old(self).actions.recv.in_flight_data as int),
+    //@spec     ensures
+    //@spec         // every Ptr taken from the store is handed back
+    //@spec         final(self).store.held() == old(self).store.held(),
+    //@spec         // C03 (I-recv-pool, connection level): on EVERY exit — delivered, discarded for an unknown or reset stream,
+    //@spec         // rejected with a stream error (credited back exactly once), rejected with a connection error — credit is
+    //@spec         // neither created nor lost
+    //@spec         final(self).actions.recv.flow.a() + final(self).actions.recv.in_flight_data == old(self).actions.recv.flow.a() + old(self).actions.recv.in_flight_data,
+    //@spec         wf_conn(final(self).actions.recv.flow, final(self).actions.recv.in_flight_data as int) || r is Err,
+    //@spec         // C18: the DATA-frame overhead budget is charged at most once, with exactly the PAYLOAD length (padding is not
+    //@spec         // payload: a peer must not be able to buy budget with padding), and never for the final frame of a stream
+    //@spec         final(self).counts.charged@ == old(self).counts.charged@ || final(self).counts.charged@ == old(self).counts.charged@.push(frame.payload_len),
+    //@spec         frame.eos ==> final(self).counts.charged@ == old(self).counts.charged@,
     //@end
 }
 
